@@ -170,11 +170,11 @@ def prim_of(xsd_type: Any) -> tuple[str, bool]:
     from xmlschema.validators import helpers
     from elementpath import datatypes
     f = getattr(xsd_type.to_python, '_c02_inner', xsd_type.to_python)
-    if f is helpers.integer_to_python:
+    if f is getattr(helpers, 'integer_to_python', None) or f is int:
         return 'integer', True
-    if f is helpers.decimal_to_python:
+    if f is getattr(helpers, 'decimal_to_python', None) or f is datatypes.DecimalProxy:
         return 'decimal', True
-    if f is helpers.boolean_to_python:
+    if f is getattr(helpers, 'boolean_to_python', None):
         return 'boolean', True
     if f is str:
         if xsd_type.name in (XSD + 'QName', XSD + 'NOTATION'):
